@@ -136,8 +136,17 @@ func runE2E(ec E2ECase) (*Fail, []string, map[string]int, error) {
 var c09HistCfg = SGenCfg{NoSpare: true, RFs: []int{1, 2, 3, 3, 3, 5}, MinOps: 3, MaxOps: 18, FaultPct: 50, SlowFaults: false,
 	W: map[string]int{"write": 50, "sync": 3, "read": 4, "readd": 12, "promote": 4, "remove": 4, "nodedrop": 4, "add": 3}}
 
-func TestC09EndToEnd(t *testing.T) {
-	rec := NewRecorder("C09", "TestC09EndToEnd")
+func TestC09EndToEnd(t *testing.T) { runE2EProperty(t, "C09", "TestC09EndToEnd") }
+
+// TestC02Restart: the same histories, reported under C02 when an acknowledged
+// write is not served after the restart (a replica in service at a later time
+// must hold every acknowledged write): the failing-disk outcome (DISKERR) makes
+// a replica fail inside Replica.WriteAt, and the restart shows what that
+// replica kept on disk about the write it did not apply.
+func TestC02Restart(t *testing.T) { runE2EProperty(t, "C02", "TestC02Restart") }
+
+func runE2EProperty(t *testing.T, prop, test string) {
+	rec := NewRecorder(prop, test)
 	defer rec.Flush(t)
 	run := func(ec E2ECase, fatalf func(string, ...interface{})) {
 		f, trace, labels, err := runE2E(ec)
@@ -153,23 +162,27 @@ func TestC09EndToEnd(t *testing.T) {
 		}
 		rec.Case(ec, labels["restart:with-acked-writes"] > 0 && labels["write:with-failures"] > 0, ls...)
 		if f != nil {
-			detail := f.Detail + "\ntrace:\n  " + strings.Join(tail(trace, 40), "\n  ")
-			if rec.Fail("C09", "C09|"+f.Sig, detail, ec) {
+			if prop != "C09" && !strings.Contains(f.Sig, "acknowledged-write-lost") {
+				rec.Label("crossfinding:"+f.Sig, 1)
 				return
 			}
-			fatalf("VIOLATION C09 %s: %s", f.Sig, detail)
+			detail := f.Detail + "\ntrace:\n  " + strings.Join(tail(trace, 40), "\n  ")
+			if rec.Fail(prop, prop+"|"+f.Sig, detail, ec) {
+				return
+			}
+			fatalf("VIOLATION %s %s: %s", prop, f.Sig, detail)
 		}
 	}
 	var rp E2ECase
 	if isReplay, err := LoadReplay(&rp); isReplay {
 		if err != nil || len(rp.Order) == 0 {
-			t.Skip("replay file is for another C09 test")
+			t.Skip("replay file is for another test")
 		}
 		run(rp, t.Fatalf)
 		return
 	}
 	if firstShard() {
-		for _, rf := range regressFiles("TestC09EndToEnd") {
+		for _, rf := range regressFiles(test) {
 			var c E2ECase
 			if err := loadCaseFile(rf, &c); err != nil {
 				t.Fatalf("HARNESS ERROR: bad regression file %s: %v", rf, err)
@@ -180,11 +193,37 @@ func TestC09EndToEnd(t *testing.T) {
 	}
 	rapid.Check(t, func(rt *rapid.T) {
 		h := GenSProgram(rt, c09HistCfg)
+		var laggards []int
+		if prop == "C02" && h.Nodes >= 3 && rapid.IntRange(0, 2).Draw(rt, "lastwrite") > 0 {
+			// the last thing the volume sees is a write during which a minority of
+			// the replicas cannot write to their disk
+			total := int64(h.Blocks) * 8
+			off := rapid.Int64Range(0, total-1).Draw(rt, "off")
+			out := make([]Outcome, h.Nodes)
+			for j := range out {
+				out[j] = OK
+			}
+			perm := rapid.Permutation(seqInts(h.Nodes)).Draw(rt, "perm")
+			for _, j := range perm[:rapid.IntRange(1, (h.Nodes-1)/2).Draw(rt, "k")] {
+				out[j] = DISKERR
+				laggards = append(laggards, j)
+			}
+			h.Ops = append(h.Ops, SOp{K: "write", Off: off, Len: rapid.Int64Range(1, min64(total-off, 24)).Draw(rt, "len"), Seed: rapid.IntRange(1, 250).Draw(rt, "seed"), Out: out})
+		}
 		ec := E2ECase{Hist: h}
 		for i := 0; i < h.Nodes; i++ {
 			ec.Kill = append(ec.Kill, rapid.Bool().Draw(rt, "kill"))
 		}
 		ec.Order = rapid.Permutation(seqInts(h.Nodes)).Draw(rt, "order")
+		if len(laggards) > 0 && rapid.Bool().Draw(rt, "laggardsfirst") {
+			o := append([]int{}, laggards...)
+			for _, i := range ec.Order {
+				if !containsInt(laggards, i) {
+					o = append(o, i)
+				}
+			}
+			ec.Order = o
+		}
 		if rapid.IntRange(0, 2).Draw(rt, "someabsent") == 0 {
 			ec.Absent = rapid.SliceOfN(rapid.IntRange(0, h.Nodes-1), 1, 2).Draw(rt, "absent")
 		}
@@ -199,4 +238,13 @@ func firstDiff(im *Image, got []byte) int64 {
 		}
 	}
 	return -1
+}
+
+func containsInt(l []int, x int) bool {
+	for _, v := range l {
+		if v == x {
+			return true
+		}
+	}
+	return false
 }
